@@ -133,8 +133,18 @@ public:
 
 class VarCtx : public XPathExecutionContextDefault {
 public:
-    VarCtx(XPathEnvSupport& e, DOMSupport& d, XObjectFactory& f) : XPathExecutionContextDefault(e, d, f) {}
+    VarCtx(XPathEnvSupport& e, DOMSupport& d, XObjectFactory& f) : XPathExecutionContextDefault(e, d, f), strip(0) {}
     std::map<std::string, XObjectPtr> vars;    // "{uri}local"
+    // strip != 0: behave like a stylesheet with <xsl:strip-space elements="*"/> (1) or with every second element name listed (2):
+    // whitespace-only text nodes are not there, through every entry point alike
+    int strip;
+    void setStrip(int n) { strip = n; m_hasPreserveOrStripConditions = n != 0; }
+    virtual bool shouldStripSourceNode(const XalanText& node) {
+        if (strip == 0 || node.isWhitespace() == false) return false;
+        if (strip == 1) return true;
+        const XalanNode* p = node.getParentNode();
+        return p != 0 && (p->getNodeName().length() % 2) == 1;
+    }
     virtual const XObjectPtr getVariable(const XalanQName& name, const Locator* locator = 0) {
         std::string k = "{" + u8(name.getNamespace()) + "}" + u8(name.getLocalPart());
         std::map<std::string, XObjectPtr>::iterator i = vars.find(k);
@@ -291,6 +301,7 @@ inline void cmdXpath(const Msg& q, Msg& r) {
     XObjectFactoryDefault& xof = *d.xof;
     XPathConstructionContextDefault& cctx = *d.cctx;
     if (geti(q, "fresh")) { ectx.reset(); xof.reset(); cctx.reset(); }
+    ectx.setStrip(int(geti(q, "strip", 0)));
     MapResolver res; res.load(get(q, "ns"));
     XalanNode* ctxNode = nodeAt(d.doc, get(q, "ctx", "/"));
     if (!ctxNode) { r["error"] = "no such context node"; return; }
@@ -367,7 +378,24 @@ inline void cmdMatch(const Msg& q, Msg& r) {
         if (m) for (XalanSize_t k = 0; k < m->getLength(); ++k) one(m->item(k), xp, res, ectx, out);
         for (XalanNode* c = n->getFirstChild(); c; c = c->getNextSibling()) if (c->getNodeType() != XalanNode::DOCUMENT_TYPE_NODE) walk(c, xp, res, ectx, out);
     } };
-    try { W::walk(d.doc, xp, res, ectx, out); }
+    // ambient=1: match while a context node list is current, as during apply-templates / for-each (all elements of the
+    // document, or every second one): a pattern's own position() / last() must not depend on it
+    MutableNodeRefList ambient(mm);
+    if (has(q, "ambient")) {
+        struct C { static void collect(XalanNode* n, MutableNodeRefList& l, long& k, long step) {
+            if (n->getNodeType() == XalanNode::ELEMENT_NODE && (k++ % step) == 0) l.addNode(n);
+            for (XalanNode* c = n->getFirstChild(); c; c = c->getNextSibling()) collect(c, l, k, step);
+        } };
+        long k = 0;
+        C::collect(d.doc, ambient, k, geti(q, "ambient") > 1 ? geti(q, "ambient") : 1);
+        ambient.setDocumentOrder();
+    }
+    try {
+        if (has(q, "ambient")) {
+            XPathExecutionContext::ContextNodeListPushAndPop guard(ectx, ambient);
+            W::walk(d.doc, xp, res, ectx, out);
+        } else W::walk(d.doc, xp, res, ectx, out);
+    }
     catch (const XSLException& e) { r["match_error"] = excText(e); }
     r["scores"] = out;
     ectx.vars.clear();
